@@ -31,6 +31,7 @@ type VerifEnt struct {
 	Deleted bool                   `json:"deleted,omitempty"`
 	Props   map[string]interface{} `json:"props"`
 	Refs    map[string]interface{} `json:"refs"`
+	Bad     bool                   `json:"bad,omitempty"` // the driver adds a nil reference after parsing: the store rejects the batch
 }
 
 type VerifSet struct {
@@ -55,6 +56,7 @@ type VerifOp struct {
 	Via   string         `json:"via,omitempty"` // setpubns: batch | txn
 	Names []string       `json:"names,omitempty"`
 	B     *VerifOp       `json:"b,omitempty"` // concurrent_pair: the second actor's operation
+	At    string         `json:"at,omitempty"` // concurrent_pair: pause point of actor 1: "" = updateDataset.afterRead, "commit" = batch.beforeIdCommit
 }
 
 type VerifCase struct {
@@ -120,6 +122,7 @@ func verifPayload(ents []VerifEnt) []byte {
 		if e.Refs == nil {
 			e.Refs = map[string]interface{}{}
 		}
+		e.Bad = false
 		j, _ := json.Marshal(e)
 		b.WriteString(",")
 		b.Write(j)
@@ -135,6 +138,13 @@ func verifParse(store *Store, ents []VerifEnt) ([]*Entity, error) {
 		res = append(res, e)
 		return nil
 	})
+	if err == nil && len(res) == len(ents) {
+		for i := range ents {
+			if ents[i].Bad {
+				res[i].References["ns0:verifbad"] = nil
+			}
+		}
+	}
 	return res, err
 }
 
@@ -486,6 +496,10 @@ func verifPair(h *verifHub, c VerifCase, op VerifOp) (oo VerifOpObs) {
 	armed := int32(1) // only actor 1 is ever paused: disarmed once it has finished without reaching the point
 	var waitingSince int64 // actor 2 waits for some other lock since (a repaired tree may make it wait elsewhere)
 	target := op.Ds
+	pausePoint := "updateDataset.afterRead"
+	if op.At == "commit" {
+		pausePoint = "batch.beforeIdCommit"
+	}
 	stopPoll := make(chan struct{})
 	defer close(stopPoll)
 	go func() {
@@ -501,7 +515,7 @@ func verifPair(h *verifHub, c VerifCase, op VerifOp) (oo VerifOpObs) {
 		}
 	}()
 	verifhook.SetHandler(func(name, arg string) {
-		if name == "updateDataset.afterRead" && arg == target && atomic.LoadInt32(&armed) == 1 {
+		if name == pausePoint && arg == target && atomic.LoadInt32(&armed) == 1 {
 			first := false
 			once.Do(func() { first = true })
 			if first {
